@@ -446,7 +446,7 @@ func runC06(rc *RunCtx) {
 		knobs["chunk"] = p.Chunk
 	}
 	rc.Out.Sample = map[string]any{"records": len(recs), "options": o.args(), "config": p.String()}
-	spec := CmdSpec{Name: "obiuniq", Args: args, Dir: dir, Knobs: knobs, PoolPolicy: p.Pool, YieldDensity: p.Yield}
+	spec := CmdSpec{Name: "obiuniq", Args: args, Dir: dir, Knobs: knobs, PoolPolicy: p.Pool, YieldDensity: p.Yield, StderrNull: p.ErrNull}
 	if large {
 		spec.MaxSteps = 20000000
 		spec.TimeoutSec = 1500
@@ -488,7 +488,7 @@ func runC06(rc *RunCtx) {
 		rc.Probe("demerge_round_trip")
 		d2 := filepath.Join(dir, "demerge")
 		os.MkdirAll(d2, 0755)
-		dm := rc.RunCmd(CmdSpec{Name: "obidemerge", Dir: d2, PoolPolicy: p.Pool, YieldDensity: p.Yield,
+		dm := rc.RunCmd(CmdSpec{Name: "obidemerge", Dir: d2, PoolPolicy: p.Pool, YieldDensity: p.Yield, StderrNull: p.ErrNull,
 			Args: []string{"--max-cpu", fmt.Sprint(p.MaxCPU), "--batch-size", fmt.Sprint(p.BatchSize), "-d", "sample", "-o", filepath.Join(d2, "out.fasta"), filepath.Join(dir, "out.fasta")}})
 		if !rc.cmdMustSucceed(dm, "C06/demerge", "obidemerge -d sample on the output of obiuniq") {
 			return
